@@ -18,7 +18,8 @@ var propInfo = map[string]struct {
 		[]string{
 			"A-COMP-C08: that the concatenation of all returned batches is S[Start..Start+Count) follows from the per-call contract by induction over calls (the object invariant is the induction hypothesis and is machine-checked; the induction itself is a paper step)",
 			"the child satisfies the Plan / FinalPlan interface contract of contracts_verif_plan.go (assumed for children that are not themselves under contract)",
-			"not yet under contract for this property: the limit half of AggregatePlan, parser.parseLimit and the plan wiring in optimizer.go",
+			"the plan wiring is under contract: buildFinalPlan / buildFinalLimitPlan hand `limit s, n` to a FinalLimitPlan with Start = s, Count = n on top of the projection / order plan, or - for an aggregate without ORDER BY - to the AggregatePlan itself (Start = s, Limit = n; Limit = -1 without LIMIT), whose Next / Batch are proved against the same state machine; buildDeletePlan wires LimitPlan likewise",
+			"not under contract for this property: parser.parseLimit (the numbers of the LimitStmt are taken as given)",
 		}},
 	"C11": {"proof",
 		"DeletePlan.execute/Next/Batch are proved against the child's ghost output sequence (fixed at Init: snapshot cursors): the loop drains the child, every mutating storage call it issues is a BatchDelete whose keys are exactly the keys of the child batch just read (ghost lastKeys vs pseq), the number of keys handed to BatchDelete equals the number of rows drained, no Put/BatchPut/Delete is in the frame, and the plan executes once (executed flag).",
@@ -44,7 +45,7 @@ var propInfo = map[string]struct {
 	"C13": {"proof",
 		"Typestate of storage errors and read-only frames: every Storage / Cursor operation requires !failed and sets failed / lastErr on error; every plan function under contract has the postcondition failed ==> err == lastErr (the error is returned unchanged) and, by its precondition obligations at the call sites, issues no storage operation once one has failed; the scan plans, filter and limit plans have frames without the ghost write counters (nmut unchanged: no mutating call); buildDeletePlan returns only after Init and surfaces its error.",
 		[]string{
-			"scope: proved per API call of the functions listed under functions_under_contract (now including the Batch forms of the four scans and the grouping loops AggregatePlan.prepare / prepareBatch); ProjectionPlan.Batch, FinalOrderPlan and buildPlan/BuildPlan are not yet under contract for this property",
+			"scope: proved per API call of the functions listed under functions_under_contract (now including the Batch forms of the four scans and the grouping loops AggregatePlan.prepare / prepareBatch); the whole plan-building path is under contract for this property (BuildPlan, buildPlan, buildSelectPlan, buildFinalPlan, buildPutPlan, buildRemovePlan, buildDeletePlan: planning never issues a mutating operation and an error of a cursor creation / seek during Init is returned unchanged; Optimizer.init - parsing, checking, rewriting - is a thin assumed contract: it has no access to a store), as is FinalOrderPlan; ProjectionPlan.Batch is not",
 			"A-STORE: the Storage implementation reports failure only through the returned error",
 		}},
 	"C06": {"proof",
